@@ -229,7 +229,7 @@ Qed.
 (* inside a directory of plain files the walk order is file-name order *)
 Theorem walk_flat_dir d cs :
   all_files cs ->
-  walk (Dir d cs) = map (fun c => (d ++ "/" ++ node_name c)%string) (sort_nodes cs)
+  walk (Dir d cs) = map (fun c => VFile (d ++ "/" ++ node_name c)%string) (sort_nodes cs)
   /\ Permutation (sort_nodes cs) cs /\ Sorted node_le (sort_nodes cs).
 Proof.
   intros H. split; [|split; [apply sort_nodes_perm|apply sort_nodes_sorted]].
@@ -241,7 +241,230 @@ Proof.
   intros m Hm. apply Hs. right. exact Hm.
 Qed.
 
-(* arguments are visited in argument order; a directory contributes its files contiguously *)
+(* ---------------------------------------------------------------- errors: `entry?` *)
+
+Definition wbind {A B} (x : wresult A) (f : A -> wresult B) : wresult B :=
+  match x with WOk a => f a | WErr e => WErr e end.
+
+Lemma collect_app u v :
+  collect (u ++ v) = wbind (collect u) (fun pu => wbind (collect v) (fun pv => WOk (pu ++ pv))).
+Proof.
+  induction u as [|[p|e] u IH]; cbn.
+  - destruct (collect v); reflexivity.
+  - rewrite IH. destruct (collect u); cbn; [|reflexivity]. destruct (collect v); reflexivity.
+  - reflexivity.
+Qed.
+
+(* arguments are visited in argument order; a directory contributes its files contiguously; the
+   first error in that order is the result *)
 Theorem sort_args_app (a b : list node) :
-  sort (a ++ b) = sort_paths (flat_map walk a ++ flat_map walk b).
-Proof. unfold sort. rewrite flat_map_app. reflexivity. Qed.
+  sort (a ++ b) =
+  wbind (collect (flat_map walk a)) (fun pa =>
+  wbind (collect (flat_map walk b)) (fun pb => WOk (sort_paths (pa ++ pb)))).
+Proof.
+  unfold sort. rewrite flat_map_app, collect_app.
+  destruct (collect (flat_map walk a)); cbn; [|reflexivity].
+  destruct (collect (flat_map walk b)); reflexivity.
+Qed.
+
+Definition is_file_visit (v : visit) : bool := match v with VFile _ => true | VErr _ => false end.
+Definition visit_path (v : visit) : string := match v with VFile p => p | VErr _ => EmptyString end.
+
+Lemma collect_ok vs : forallb is_file_visit vs = true -> collect vs = WOk (map visit_path vs).
+Proof.
+  induction vs as [|[p|e] vs IH]; cbn; intros H; [reflexivity| |discriminate].
+  rewrite (IH H). reflexivity.
+Qed.
+Lemma collect_err vs : forallb is_file_visit vs = false -> exists e, collect vs = WErr e /\ In (VErr e) vs.
+Proof.
+  induction vs as [|[p|e] vs IH]; cbn; intros H; [discriminate| |].
+  - destruct (IH H) as [e [E I]]. exists e. rewrite E. auto.
+  - exists e. auto.
+Qed.
+
+(* ---------------------------------------------------------------- symbolic links (F23) *)
+
+(* induction over trees (children are a nested list) *)
+Section NodeInd.
+  Variable P : node -> Prop.
+  Hypothesis HF : forall s, P (File s).
+  Hypothesis HS : forall s, P (Special s).
+  Hypothesis HL : forall s t, P (Link s t).
+  Hypothesis HD : forall s cs, Forall P cs -> P (Dir s cs).
+  Hypothesis HLD : forall s cs, Forall P cs -> P (LinkDir s cs).
+  Fixpoint node_ind' (n : node) : P n :=
+    match n with
+    | File s => HF s
+    | Special s => HS s
+    | Link s t => HL s t
+    | Dir s cs => HD s cs ((fix go (l : list node) : Forall P l :=
+                              match l with [] => Forall_nil P | c :: l' => Forall_cons c (node_ind' c) (go l') end) cs)
+    | LinkDir s cs => HLD s cs ((fix go (l : list node) : Forall P l :=
+                              match l with [] => Forall_nil P | c :: l' => Forall_cons c (node_ind' c) (go l') end) cs)
+    end.
+End NodeInd.
+
+(* the entries of a directory, in the listed order *)
+Fixpoint walk_children (path : string) (l : list node) : list visit :=
+  match l with
+  | [] => []
+  | c :: l' => walk_listed (path ++ "/" ++ node_name c) c ++ walk_children path l'
+  end.
+Lemma walk_listed_dir path s cs : walk_listed path (Dir s cs) = walk_children path cs.
+Proof. cbn. induction cs as [|c l IH]; [reflexivity|]. cbn. rewrite IH. reflexivity. Qed.
+Lemma walk_listed_linkdir path s cs : walk_listed path (LinkDir s cs) = walk_children path cs.
+Proof. cbn. induction cs as [|c l IH]; [reflexivity|]. cbn. rewrite IH. reflexivity. Qed.
+
+(* a link that resolves is replaced by what it resolves to, UNDER THE LINK'S NAME *)
+Fixpoint resolve (n : node) : node :=
+  match n with
+  | Link s LFile => File s
+  | Link s LSpecial => Special s
+  | LinkDir s cs => Dir s (map resolve cs)
+  | Dir s cs => Dir s (map resolve cs)
+  | _ => n
+  end.
+
+Lemma resolve_name n : node_name (resolve n) = node_name n.
+Proof. destruct n as [| | |s [| | |]|]; reflexivity. Qed.
+
+Lemma insert_node_resolve n l : map resolve (insert_node n l) = insert_node (resolve n) (map resolve l).
+Proof.
+  induction l as [|m l IH]; cbn; [reflexivity|]. rewrite !resolve_name.
+  destruct (name_le (node_name n) (node_name m)); cbn; [reflexivity|]. rewrite IH. reflexivity.
+Qed.
+Lemma sort_nodes_resolve l : map resolve (sort_nodes l) = sort_nodes (map resolve l).
+Proof.
+  unfold sort_nodes. induction l as [|n l IH]; cbn; [reflexivity|]. rewrite insert_node_resolve, IH. reflexivity.
+Qed.
+
+Lemma sort_tree_resolve n : sort_tree (resolve n) = resolve (sort_tree n).
+Proof.
+  induction n as [s|s|s t|s cs IH|s cs IH] using node_ind'; try reflexivity.
+  - destruct t; reflexivity.
+  - cbn. f_equal. rewrite sort_nodes_resolve. f_equal. rewrite !map_map.
+    apply map_ext_in. intros c Hc. rewrite Forall_forall in IH. apply IH. exact Hc.
+  - cbn. f_equal. rewrite sort_nodes_resolve. f_equal. rewrite !map_map.
+    apply map_ext_in. intros c Hc. rewrite Forall_forall in IH. apply IH. exact Hc.
+Qed.
+
+Lemma walk_listed_resolve n : forall path, walk_listed path (resolve n) = walk_listed path n.
+Proof.
+  induction n as [s|s|s t|s cs IH|s cs IH] using node_ind'; intros path; try reflexivity.
+  - destruct t; reflexivity.
+  - cbn [resolve]. rewrite !walk_listed_dir. induction IH as [|c l Hc _ IHl]; [reflexivity|].
+    cbn. rewrite resolve_name, Hc, IHl. reflexivity.
+  - cbn [resolve]. rewrite walk_listed_dir, walk_listed_linkdir. induction IH as [|c l Hc _ IHl]; [reflexivity|].
+    cbn. rewrite resolve_name, Hc, IHl. reflexivity.
+Qed.
+
+(* F23: links that resolve are transparent - the walk sees the file / the directory under the link's name *)
+Theorem walk_resolve n : walk (resolve n) = walk n.
+Proof. unfold walk. rewrite resolve_name, sort_tree_resolve, walk_listed_resolve. reflexivity. Qed.
+
+Theorem sort_resolve args : sort (map resolve args) = sort args.
+Proof.
+  unfold sort. replace (flat_map walk (map resolve args)) with (flat_map walk args); [reflexivity|].
+  induction args as [|n l IH]; cbn; [reflexivity|]. rewrite walk_resolve, IH. reflexivity.
+Qed.
+
+(* no dangling link, no loop anywhere below *)
+Fixpoint clean (n : node) : bool :=
+  match n with
+  | Link _ LDangling | Link _ LLoop => false
+  | Dir _ cs | LinkDir _ cs => forallb clean cs
+  | _ => true
+  end.
+
+Lemma forallb_app_visits u v : forallb is_file_visit (u ++ v) = forallb is_file_visit u && forallb is_file_visit v.
+Proof. apply forallb_app. Qed.
+
+Lemma insert_node_clean n l : forallb clean (insert_node n l) = clean n && forallb clean l.
+Proof.
+  induction l as [|m l IH]; cbn; [reflexivity|].
+  destruct (name_le (node_name n) (node_name m)); cbn; [reflexivity|]. rewrite IH.
+  destruct (clean n), (clean m); reflexivity.
+Qed.
+Lemma sort_nodes_clean l : forallb clean (sort_nodes l) = forallb clean l.
+Proof. unfold sort_nodes. induction l as [|n l IH]; cbn; [reflexivity|]. rewrite insert_node_clean, IH. reflexivity. Qed.
+
+Lemma sort_tree_clean n : clean (sort_tree n) = clean n.
+Proof.
+  induction n as [s|s|s t|s cs IH|s cs IH] using node_ind'; try reflexivity.
+  - cbn. rewrite sort_nodes_clean. induction IH as [|c l Hc _ IHl]; [reflexivity|]. cbn. rewrite Hc, IHl. reflexivity.
+  - cbn. rewrite sort_nodes_clean. induction IH as [|c l Hc _ IHl]; [reflexivity|]. cbn. rewrite Hc, IHl. reflexivity.
+Qed.
+
+Lemma walk_listed_clean n : forall path, forallb is_file_visit (walk_listed path n) = clean n.
+Proof.
+  induction n as [s|s|s t|s cs IH|s cs IH] using node_ind'; intros path; try reflexivity.
+  - destruct t; reflexivity.
+  - rewrite walk_listed_dir. cbn [clean]. induction IH as [|c l Hc _ IHl]; [reflexivity|].
+    cbn. rewrite forallb_app, Hc, IHl. reflexivity.
+  - rewrite walk_listed_linkdir. cbn [clean]. induction IH as [|c l Hc _ IHl]; [reflexivity|].
+    cbn. rewrite forallb_app, Hc, IHl. reflexivity.
+Qed.
+
+Lemma visits_clean args : forallb is_file_visit (flat_map walk args) = forallb clean args.
+Proof.
+  induction args as [|n l IH]; cbn; [reflexivity|].
+  rewrite forallb_app, IH. unfold walk. rewrite walk_listed_clean, sort_tree_clean. reflexivity.
+Qed.
+
+(* Files::sort returns Ok iff no dangling link and no loop is below the arguments; then the
+   buckets are those of the visited paths (links to files included, under their own names) *)
+Theorem sort_ok_iff_clean args :
+  (forallb clean args = true -> sort args = WOk (sort_paths (map visit_path (flat_map walk args)))) /\
+  (forallb clean args = false -> exists e, sort args = WErr e /\ In (VErr e) (flat_map walk args)).
+Proof.
+  split; intros H; unfold sort.
+  - rewrite collect_ok; [reflexivity|]. rewrite visits_clean. exact H.
+  - destruct (collect_err (flat_map walk args)) as [e [E I]]; [rewrite visits_clean; exact H|].
+    exists e. rewrite E. auto.
+Qed.
+
+(* the statement of F23 itself: a link to a regular file is visited like a regular file of that name *)
+Corollary walk_link_file s : walk (Link s LFile) = walk (File s).
+Proof. reflexivity. Qed.
+
+(* ---------------------------------------------------------------- swapping the two .lp arguments *)
+
+(* strong equivalence: the first .lp is left, the second right *)
+Theorem swap_roles_strong a b :
+  kind_of a = KProgram -> kind_of b = KProgram ->
+  left (sort_paths [b; a]) = Some b /\ right (sort_paths [b; a]) = Some a /\
+  left (sort_paths [a; b]) = Some a /\ right (sort_paths [a; b]) = Some b.
+Proof.
+  intros Ha Hb. unfold sort_paths, sort_entries. cbn [map fold_left fst snd]. rewrite Ha, Hb.
+  repeat split; reflexivity.
+Qed.
+
+(* external equivalence: two .lp files followed by files of other kinds.  Without a .spec file the
+   first .lp is the specification (a program used as specification: inl) and the second the program:
+   swapping the two exchanges the roles.  With a .spec file that file is the specification, the FIRST
+   .lp the program and the second .lp is ignored: swapping the two replaces the program by the
+   ignored file.  User guide and proof outline are unaffected. *)
+Theorem swap_roles_external a b rest :
+  kind_of a = KProgram -> kind_of b = KProgram -> (forall y, In y rest -> kind_of y <> KProgram) ->
+  let f := sort_paths (a :: b :: rest) in
+  let f' := sort_paths (b :: a :: rest) in
+  user_guide f = user_guide f' /\ proof_outline f = proof_outline f' /\
+  match filter (is_kind KSpecification) rest with
+  | [] => specification f = Some (inl a) /\ program f = Some b /\
+          specification f' = Some (inl b) /\ program f' = Some a
+  | s :: _ => specification f = Some (inr s) /\ program f = Some a /\
+              specification f' = Some (inr s) /\ program f' = Some b
+  end.
+Proof.
+  intros Ha Hb Hr. cbv zeta.
+  assert (Hp : filter (is_kind KProgram) rest = []).
+  { apply filter_none. intros y Hy. specialize (Hr y Hy). unfold is_kind. destruct (kind_of y); cbn; congruence. }
+  pose proof (roles_first (a :: b :: rest)) as R. pose proof (roles_first (b :: a :: rest)) as R'.
+  cbv zeta in R, R'. cbn [filter] in R, R'.
+  unfold roles_of in R, R'.
+  unfold is_kind in R, R'. rewrite Ha, Hb in R, R'. cbn [kind_eqb] in R, R'.
+  fold (is_kind KProgram) (is_kind KSpecification) (is_kind KUserGuide) (is_kind KProofOutline) in R, R'.
+  rewrite Hp in R, R'. injection R as _ _ Rs Rp Ru Ro. injection R' as _ _ Rs' Rp' Ru' Ro'.
+  split; [congruence|]. split; [congruence|].
+  destruct (filter (is_kind KSpecification) rest) as [|s l]; cbn in *; auto.
+Qed.
